@@ -49,6 +49,13 @@ func vShards(d *vCtx, n int, child func(i, n int) error) error {
 				outs[i] = string(b)
 				if err == nil {
 					errs[i] = nil
+					// the child asked to be replaced by a fresh process for the remaining jobs
+					var m map[string]any
+					if b, rerr := os.ReadFile(filepath.Join(dir, "restart.json")); rerr == nil && json.Unmarshal(b, &m) == nil {
+						job, _ := m["job"].(float64)
+						resumeAfter = int(job)
+						continue
+					}
 					return
 				}
 				tail := outs[i]
@@ -132,4 +139,11 @@ func vResumeAfter() int {
 // vMarkCurrent records the job about to run, so that a crash can be attributed to it.
 func vMarkCurrent(d *vCtx, job int, v any) {
 	_ = vWriteJSON(d.path("current.json"), map[string]any{"job": job, "case": v})
+}
+
+// vRequestRestart: the job just finished left goroutines of the code under test behind (a role did
+// not return); they would write into the next run's terminal, files and captured stdout.  The
+// child finishes normally after this job and the parent starts a fresh process for the rest.
+func vRequestRestart(d *vCtx, job int) {
+	_ = vWriteJSON(d.path("restart.json"), map[string]any{"job": job})
 }
